@@ -209,6 +209,19 @@ fn eval(c: &Case, escapes_attempted: &AtomicU64) -> Verdict {
             let (p, k, _) = ENTRIES[i as usize];
             matches!(k, K::Link(_)) && c.entries.iter().any(|&j| matches!(ENTRIES[j as usize].1, K::Link(_)) && ENTRIES[j as usize].0.starts_with(&format!("{p}/")))
         });
+        // ... and additionally a non-symlink entry below `P`, with overwrite_existing: the checkout first creates the directory `P`, then
+        // replaces it (remove_dir_all) by the delayed symlink `P`, while the path stack still believes `P` is a verified directory
+        let replaced_directory = symlink_pair
+            && c.overwrite_existing
+            && c.entries.iter().any(|&i| {
+                let (p, k, _) = ENTRIES[i as usize];
+                matches!(k, K::Link(_))
+                    && c.entries.iter().any(|&j| !matches!(ENTRIES[j as usize].1, K::Link(_)) && ENTRIES[j as usize].0.starts_with(&format!("{p}/")))
+            });
+        if replaced_directory {
+            let class = if d.contains("dest/.git") { "wrote-into-git-dir-via-replaced-directory" } else { "escaped-destination-via-replaced-directory" };
+            return bad(class, format!("{desc}: checkout {d} (result: {})", res.as_ref().map(|_| "ok".to_string()).unwrap_or_else(|e| e.to_string())));
+        }
         let class = match (d.contains("dest/.git"), symlink_pair) {
             (true, false) => "wrote-into-git-dir",
             (false, false) => "escaped-destination",
@@ -252,7 +265,7 @@ pub fn run(run: &'static Run) {
         "index = every set of <=2 (quick) / <=3 (thorough) entries with distinct paths out of 28 templates: benign {a, b(exe), d/f, A, s->d, d/up->../a, dangling link}; \
          symlink `l` -> {d, .., ../outside/vd, <abs outside>/vd, .git} combined with entries l/f, l/config, l/sub/f, l/ln (symlink) that traverse it; direct attacks {.git/config, .git/hooks/x, .GIT/config, git~1/config, .git as symlink, \
          ../outside/escape, d/../../outside/escape, <abs outside>/escape}; D/F conflicts {a + a/b, d/f + d as symlink to outside, b + b/x}; symlinked .gitmodules; \
-         x destination {empty, pre-populated with symlinks a,d,l pointing outside and a stale file} x overwrite_existing x keep_going x thread_limit {1,2} x validation {all, minimal}; \
+         x destination {empty, pre-populated with symlinks a,d,l pointing outside and a stale file} x overwrite_existing x keep_going x (thread_limit, validation) in {(1,all),(1,minimal),(2,all)}; \
          oracle: full snapshot (paths, types, modes, contents, link targets) of the sandbox outside the destination and of dest/.git is identical before and after; benign indices into an empty destination are reproduced exactly (content, exec bit, link target, no errors); \
          non-trivial = the index is non-empty",
     );
@@ -278,7 +291,7 @@ pub fn run(run: &'static Run) {
                         for keep_going in [false, true] {
                             for threads in [1u8, 2] {
                                 for validate in [0u8, 1] {
-                                    if quick && (threads == 2 && validate == 1) {
+                                    if threads == 2 && validate == 1 {
                                         continue;
                                     }
                                     emit(Case { entries: set.to_vec(), prepopulated, overwrite_existing, keep_going, threads, validate });
